@@ -184,6 +184,8 @@ class OwnProfile(Profile):
         # now and then an operation OUTSIDE every statement's domain is attempted (a second node
         # with a UUID the IR already holds): accepted -> the run ends; refused -> must be clean
         c["p_out_of_domain"] = r.choice([0.0, 0.1, 0.3]) if getattr(self, "prop", None) in ("C03", "C04", "C05", "C06", "C13", "C16") else 0.0
+        # twins made by copy.deepcopy / pickle (workloads without AuxData only, see persist.Copy)
+        c["allow_copy"] = getattr(self, "prop", None) in ("C03", "C04", "C05", "C06", "C13", "C16")
         return c
 
     def gen_out_of_domain(self, w, r):
@@ -371,6 +373,11 @@ class OwnProfile(Profile):
         if fam == "persist":
             from . import gen_persist
 
+            if w.cfg.get("allow_copy") and r.random() < 0.35:
+                irs = w.m.by_kind("ir")
+                if irs:
+                    w.next_id["twin"] += 1
+                    return {"op": "copy", "ir": irs[r.randrange(len(irs))], "as": "K%d" % w.next_id["twin"], "how": r.choice(["deepcopy", "deepcopy", "pickle"])}
             x = r.random()
             if x < 0.5:
                 op = gen_persist.gen_save(w, r)
